@@ -7,6 +7,16 @@ from vlib.ref import exec as RX
 
 def frame_of(exc):
     tb = exc.__traceback__
+    if isinstance(exc, RecursionError):
+        # the innermost frame of a RecursionError is arbitrary: name the recursion cycle instead
+        import collections
+        c = collections.Counter()
+        while tb is not None:
+            fn = tb.tb_frame.f_code.co_filename
+            if "/py_gql/" in fn:
+                c["%s.%s" % (fn.split("/py_gql/")[1].replace(".py", "").replace("/", "."), tb.tb_frame.f_code.co_name)] += 1
+            tb = tb.tb_next
+        return "cycle:" + "+".join(sorted(k.split(".")[-1] for k, _ in c.most_common(3))) if c else "?"
     last = "?"
     while tb is not None:
         fn = tb.tb_frame.f_code.co_filename
